@@ -117,6 +117,11 @@ func (i *interpreter) oSlice(o *oslice, lo, hi, max value) value {
 	if !i.branch(ok) {
 		panic(runtimeError("slice bounds out of range"))
 	}
+	if !l.IsConst() && l == h {
+		// x[len(x):] and friends: an empty view (its capacity tail is dropped)
+		e := i.newOpaque(o.base.elemT, c.BV(0, 64))
+		return e
+	}
 	lc := int(i.concInt(mkval(l, types.Int)))
 	return &oslice{base: o.base, off: o.off + lc, len: c.Sub(h, c.BV(uint64(lc), 64)), cap: c.Sub(m, c.BV(uint64(lc), 64))}
 }
